@@ -93,6 +93,14 @@ CHECKS = {
                  "prefixes: SyntaxError iff no prefix is a sentence, every tree valid, every derivation present exactly once.",
         "note": _GLR_NOTE + " The LR half of C17 (Parser with consume_input=False) is decided by the LR corpus once built.",
     },
+    "C09": {
+        "engine": "tlc-trace", "design_ref": "DESIGN.md 3.9 Actions, 7 C09",
+        "technique": "Actions.tla symbolic evaluation (uninterpreted user actions as terms, documented defaults and built-ins) of the recorded derivation tree vs the recorded results of the three action routes (ActCheck.tla), TLC",
+        "level": "For every explored grammar, action table and LR-accepted sentence the result of actions during parsing, of build_tree + call_actions and of GLR single tree + "
+                 "call_actions must each equal Actions!Eval of that route's tree (argument order, alternative index, named matches, ?= truthiness, default nesting, collect/optional/"
+                 "separator built-ins, spans handed to actions), and the routes must agree with spans stripped.",
+        "note": "Trusted: TLC, the tagging of Python results (harness/stage_act.tagval), the recording actions. Bounded: small grammars with <= 3 nonterminals, sentences <= 9 tokens.",
+    },
     "C18": {
         "engine": "tlc-trace", "design_ref": "DESIGN.md 3.4, 3.5 (FilterCall), 7 C18",
         "technique": "FilterCheck.tla: recorded filter call logs vs marks and returned trees (FilterInitOnce, FilterOnlyMarked, AcceptedTaken, RejectedNotTaken, AcceptAll = NoFilter, RejectP = NoFilter minus p); Prec.tla for precedence-encoding filters, TLC",
